@@ -42,6 +42,10 @@ SKELETONS = {
     "cyclopropenyl-3c": "c1cc1", "cycloheptatrienyl-7c": "c1cccccc1", "toluene": "Cc1ccccc1", "quinoline": "c1ccc2ncccc2c1",
     "pyrene": "c1cc2ccc3cccc4ccc(c1)c2c34", "phenalene-like-13c": "c1cc2cccc3cccc(c1)c23",
     "thiazole": "c1cscn1", "pyrylium-like-o": "c1ccocc1",
+    # explicit single bonds between aromatic atoms *inside* cycles (so they can become ring-closure bonds)
+    "biphenylene-explicit-single": "c1ccc2c(c1)-c1ccccc1-2", "fluorene": "c1ccc2c(c1)Cc1ccccc1-2",
+    "carbazole": "c1ccc2c(c1)[nH]c1ccccc1-2", "two-5-rings-single-linked": "c1ccc-2c1-c1cccc12",
+    "5-7-single-linked": "c1ccc-2c1-c1cccccc12", "dibenzofuran": "c1ccc2c(c1)oc1ccccc1-2",
 }
 
 
@@ -304,7 +308,7 @@ def bond_symbol(atoms, bonds, u, v):
     return {2: "=", 3: "#"}[o]
 
 
-def spell(atoms, bonds, adj, order, parent):
+def spell(atoms, bonds, adj, order, parent, sym_at_close=False):
     par, rings = E2.spelling_from_traversal(adj, order, parent)
     n = len(order)
     at = [atoms[order[k]].text for k in range(n)]
@@ -315,7 +319,7 @@ def spell(atoms, bonds, adj, order, parent):
     for (a, b) in rings:
         s = bond_symbol(atoms, bonds, order[a], order[b])
         if s:
-            rt[(a, b)] = (s, "")
+            rt[(a, b)] = ("", s) if sym_at_close else (s, "")
     return E2.write(n, par, rings, at, bt, ring_tok=rt, scheme="reuse")
 
 
@@ -417,7 +421,8 @@ def plan(tier, seed):
     for pi, _ in enumerate(E2.parent_vectors(8)):
         tasks.append(("api/all-carbon-8", ("carbon8", pi)))
     scopes.append({"name": "api/skeletons-all-spellings", "skeletons": sorted(SKELETONS),
-                   "desc": "G2: every DFS spelling (every start atom x every neighbour order) of each skeleton; at most "
+                   "desc": "G2: every DFS spelling (every start atom x every neighbour order; explicit ring-bond symbols once on the "
+                           "opening and once on the closing digit) of each skeleton; at most "
                            "4000 per skeleton, above that the 6-policy family from every start atom"})
     for name in sorted(SKELETONS):
         tasks.append(("api/skeletons-all-spellings", ("skel", name)))
@@ -559,6 +564,7 @@ def run(task):
         for start in range(len(atoms)):
             for order, parent in E2.g2(adj, start):
                 spellings.append(spell(atoms, bonds, adj, order, parent))
+                spellings.append(spell(atoms, bonds, adj, order, parent, sym_at_close=True))
                 if len(spellings) > 4000:
                     capped = True
                     break
@@ -570,6 +576,7 @@ def run(task):
                 for pol in POLICIES:
                     order, parent = policy_traversal(adj, start, pol)
                     spellings.append(spell(atoms, bonds, adj, order, parent))
+                    spellings.append(spell(atoms, bonds, adj, order, parent, sym_at_close=True))
             r.cov["skeleton %s: > 4000 DFS spellings, 6-policy family used instead" % name] += 1
         verdicts = {}
         for smi in sorted(set(spellings)):
